@@ -2,7 +2,7 @@
    The instantiation of the generic theorems to the table regenerated from runtime/vm.go
    (`well_locked vm_table = true`, `vm_race_free`, `vm_skeleton_ok`) is re-stated and re-checked
    against the freshly generated table on every run (.build/C10/LockObligations.v). *)
-From V.C10 Require Import Spec Lock Model Proofs.
+From V.C10 Require Import Spec Lock Model Proofs AutoloadModel AutoloadProofs.
 
 (* "... and the process neither crashes nor reports a data race": for ANY table of methods that passes the
    decidable discipline check, any number of threads each running any sequence of execution paths of
@@ -68,3 +68,23 @@ Proof.
   split; [exact E|]. rewrite E. split; [apply one_winner_l|apply success_visible_l].
 Qed.
 Print Assumptions concurrent_consequences.
+
+(* GetOrLoadClass AS A WHOLE (GetClass; LoadClass pre-check; LoadAndRun under the re-entrant load lock of
+   runtime/load_lock.go: mark, parse = register; GetClass): for every number of threads, every per-thread list of
+   autoloadable class names and every schedule, no call ever fails ("class not found in file" is unreachable) ... *)
+Theorem getorload_never_fails : forall progs sched i t,
+  nth_error (AutoloadModel.thr (arun true (ainit progs) sched)) i = Some t ->
+  Forall (fun r => exists d, r = Found d) (rets t).
+Proof. exact never_fails_l. Qed.
+Print Assumptions getorload_never_fails.
+(* ... every file is parsed at most once ... *)
+Theorem autoload_file_parsed_once : forall progs sched, NoDup (parses (arun true (ainit progs) sched)).
+Proof. exact parsed_once_l. Qed.
+Print Assumptions autoload_file_parsed_once.
+(* ... and every call returns exactly what the ATOMIC GetOrLoadClass of the sequential specification returns
+   (the class asked for), in program order: the composite call is linearizable as a whole *)
+Theorem getorload_answers_atomic : forall progs sched i t p,
+  nth_error progs i = Some p -> nth_error (AutoloadModel.thr (arun true (ainit progs) sched)) i = Some t ->
+  rets t = map Found (firstn (List.length (rets t)) p) /\ (AutoloadModel.todo t = [] -> rets t = map Found p).
+Proof. exact answers_atomic_l. Qed.
+Print Assumptions getorload_answers_atomic.
